@@ -1137,6 +1137,9 @@ def driver_obligations(P):
                 obs.append(req_ob("R-ORDERED", site_p, "strategy %r: the entry of a tower is the time-ordered list of its own single runs" % strategy, ok, detail=(why or "") + sched if why else None, key={"strategy": strategy}))
             mis = [e for e in ret.events if e[0] == "misaligned-slice"]
             obs.append(req_ob("R-ORDERED", site_p, "strategy %r: flat results are re-assembled at the task boundaries" % strategy, not mis, detail=str(mis[:1]) if mis else None))
+            frag = [e for e in ret.events if e[0] in ("fragile-partition", "partition-gap")]
+            obs.append(req_ob("R-ORDERED", site_p, "strategy %r: work split into blocks covers every task exactly once (cut points computed exactly, first block starts at 0, last block ends at the number of tasks)" % strategy,
+                              not frag, detail="; ".join("line %s: %s" % (e[1], e[2]) for e in frag[:1]) or None, key={"strategy": strategy, "clause": "partition"}))
         # R-RESET: before each worker's solve the thread count is one and the FFT singleton is dropped
         for b, seq, events, calls in log:
             set1 = [e for e in events if e[0] == "attr-store" and e[2][1] == "NUM_THREADS" and isinstance(e[2][2], Expr) and e[2][2].eq(ONE)]
